@@ -220,7 +220,7 @@ def run(ch: Checker) -> None:
                         bad5 = ('%s(%s) is called although %s may no longer be in self.subscribers (%s; a helper that deletes the entry ran before, or the id was never checked): '
                                 'KeyError escapes through run() and the dispatcher stops for every subscriber' % (name, arg, arg, needs_present[name]), p.describe(20))
                     if name == '_send':
-                        events.append('ack:' + norm(c.args[1])[:60] if len(c.args) > 1 else 'ack')
+                        events.append('ack:' + norm(sym.value(c.args[1], sidx))[:80] if len(c.args) > 1 else 'ack')
                     if name in deletes:
                         events.append('remove')
                         present.discard(arg)
